@@ -345,6 +345,78 @@ def failing_subset():
                     yield dict(kind="gather", n=n, es=es, res=res, mc=2, k=2, failing=f)
 
 
+CACHE_SETUP_SRC = '''
+from tawazi import xn, dag
+import twzmc.harness as H
+
+@xn(setup=True)
+def s1(*a, **k):
+    return H.lib_call("s1", lambda: 100, a, k)
+
+@xn(setup=True)
+def s2(*a, **k):
+    return H.lib_call("s2", lambda: 2000, a, k)
+
+@xn
+def f(*a, **k):
+    return H.lib_call("f", lambda p, x: p + x, a, k)
+
+@xn
+def g(*a, **k):
+    return H.lib_call("g", lambda q, y: q + y, a, k)
+
+@dag(is_async={is_async})
+def d(x):
+    a = f(s1(), x)
+    b = g(s2(), a)
+    return a, b
+'''
+
+
+def cache_setup_case(acc, c):
+    """Both flavours, the same history on one object: an executor that caches a part (s1, f), an executor restarted from that file that
+    runs the other setup node (s2) for the first time, then a plain call: every step enters the same nodes in both flavours, and the plain
+    call finds BOTH setup results recorded (it enters no setup node)."""
+    import os
+
+    from ..build import exec_source
+    acc.cases += 1
+    per_flavour = {}
+    for is_async in (False, True):
+        src = CACHE_SETUP_SRC.format(is_async=is_async)
+        d = exec_source(src)["d"]
+        path = os.path.join(os.environ.get("VERIF_TMP", "/tmp"), f"c17-cache-{os.getpid()}.pkl")
+        steps = []
+
+        def run(make):
+            if is_async:
+                async def op():
+                    return await make()
+            else:
+                def op():
+                    return make()
+            r = H.run_controlled(op, is_async=is_async)
+            acc.evaluations += 1
+            steps.append((r.outcome, repr(r.value) if r.outcome == "return" else repr(r.exc), sorted(e[1] for e in r.trace if e[0] == "enter")))
+        run(lambda: d.executor(target_nodes=["f"], cache_in=path)(1))
+        run(lambda: d.executor(from_cache=path)(1))
+        run(lambda: d(1))
+        run(lambda: d(5))
+        try:
+            os.remove(path)
+        except OSError:
+            pass
+        per_flavour[is_async] = steps
+        acc.mark_nontrivial(("cache_setup", is_async))
+        want = [("return", ["f", "s1"]), ("return", ["g", "s2"]), ("return", ["f", "g"]), ("return", ["f", "g"])]
+        for i, ((oc, val, ent), (woc, went)) in enumerate(zip(steps, want)):
+            if oc != woc or ent != went:
+                acc.violation(V("setup_result_not_recorded" if i >= 2 else "cache_history_step", f"is_async={is_async}: step {i + 1} of [cache s1,f | restart from the file | call | call] "
+                                f"gave {oc} {val} and entered {ent}, expected to enter {went}", flavour=is_async, step=i + 1), dict(c, is_async=is_async, step=i + 1), (), None, src)
+    if [x[:2] for x in per_flavour[False]] != [x[:2] for x in per_flavour[True]]:
+        acc.violation(V("flavours_differ", f"the same history gives {per_flavour[False]} as DAG and {per_flavour[True]} as AsyncDAG"), dict(c), (), None, CACHE_SETUP_SRC)
+
+
 def async_hist_cases(tier):
     """sequences of awaits on ONE AsyncDAG object (arguments given / defaulted, setup() in between, a setup node still pending at the
     first await): judged like the histories of C15, whose sync flavour is the reference behaviour"""
@@ -358,14 +430,16 @@ def async_hist_cases(tier):
 
 
 def cases(tier):
-    return itertools.chain(gather_cases(tier), flavour_cases(tier), async_hist_cases(tier))
+    return itertools.chain([dict(kind="cache_setup")], gather_cases(tier), flavour_cases(tier), async_hist_cases(tier))
 
 
 def run_shard(tier, k, n, acc):
     from ..monitors import mon_c02, mon_c03, mon_c09
     from ..sched import run_case
     for c in shard_iter(cases(tier), k, n, acc):
-        if c["kind"] == "async_hist":
+        if c["kind"] == "cache_setup":
+            cache_setup_case(acc, c)
+        elif c["kind"] == "async_hist":
             from . import c15
             c15.run_hist(acc, {k_: c[k_] for k_ in ("dag", "is_async", "hist")})
         elif c["kind"] == "flavour":
@@ -385,6 +459,9 @@ def replay(v):
         from ..sched import replay_case
         res, viols = replay_case(c, [mon_c02, mon_c03, mon_c09], v["prefix"])
         return viols, res.trace
+    if c.get("kind") == "cache_setup":
+        cache_setup_case(a, dict(kind="cache_setup"))
+        return a.violations, None
     if "hist" in c and "dag" in c:
         from . import c15
         c15.run_hist(a, {k_: c[k_] for k_ in ("dag", "is_async", "hist")})
